@@ -2,4 +2,4 @@ from datetime import timedelta
 
 
 def to_milliseconds(period: timedelta) -> int:
-    return round(period.total_seconds() * 1000) + round(period.microseconds / 1000)
+    return round(period.total_seconds() * 1000)  # total_seconds() already includes the sub-second part
